@@ -26,8 +26,13 @@ TRUSTED = ['statsmodels GLM (the fluctuation model) converges to the root of its
 def gen_case(rng):
     otype = rng.choice(['binary', 'binary', 'normal'])
     missing = rng.choice([None, None, 'mar', 'mcar'])
-    df, meta = datagen.mixed_frame(rng, outcome=otype, missing=missing)
-    b = rng.choice(['none', 'none', 'sym', 'pair'])
+    extreme = rng.random() < 0.15
+    if extreme:
+        df, meta = datagen.mixed_frame(rng, n=rng.randint(300, 900), outcome=otype, missing=missing, extreme=True)
+        meta['extreme'] = True
+    else:
+        df, meta = datagen.mixed_frame(rng, outcome=otype, missing=missing)
+    b = rng.choice(['none', 'none', 'sym', 'pair']) if not extreme else 'none'
     if b == 'none':
         bound = False
     elif b == 'sym':
@@ -45,7 +50,12 @@ def gen_case(rng):
         df = df.copy()
         df['Y'] = np.round(np.exp((y - y.mean()) / (y.std() + 1e-9) * 1.3), 4)     # heavy right tail
         qb = qb + '+skewed'
-    return {'df': df, 'meta': meta, 'bound': bound, 'bkind': b, 'miss_model': use_miss_model,
+    # the storage type of a 0/1-coded exposure column is part of "every data set"
+    adtype = str(rng.choice(['int64', 'int64', 'float64', 'uint8', 'int8', 'int32', 'float32']))
+    if adtype != 'int64':
+        df = df.copy()
+        df['A'] = df['A'].astype(adtype)
+    return {'df': df, 'meta': meta, 'bound': bound, 'bkind': b, 'miss_model': use_miss_model, 'adtype': adtype,
             'alpha': rng.choice([0.05, 0.1, 0.2]), 'qbound': qbound, 'qkind': qb, 'refit': rng.random() < 0.5}
 
 
@@ -57,7 +67,20 @@ def fit(case):
     if case['miss_model']:
         tm.missing_model('A + ' + meta['rhs'], print_results=False)
     tm.outcome_model('A + ' + meta['rhs'], bound=case.get('qbound', False), print_results=False)
-    tm.fit()
+    # the property is quantified over fits that converge: record whether the fluctuation GLM inside fit() did
+    import statsmodels.api as sm
+    orig, flags = sm.GLM.fit, []
+
+    def spy_fit(self, *a, **k):
+        r = orig(self, *a, **k)
+        flags.append(bool(getattr(r, 'converged', True)))
+        return r
+    sm.GLM.fit = spy_fit
+    try:
+        tm.fit()
+    finally:
+        sm.GLM.fit = orig
+    tm._verif_converged_ = bool(flags and flags[-1])
     if case.get('refit'):
         # the targeting step must be repeatable: a second fit() on the same object solves the same equations
         first = float(tm.risk_difference if meta['outcome'] == 'binary' else tm.average_treatment_effect)
@@ -72,7 +95,7 @@ def check_case(ctx, fails, case, tr, small_exprs, small_refs):
     n = len(df)
     binary = meta['outcome'] == 'binary'
     payload = {'data': {c: [None if (isinstance(v, float) and v != v) else v for v in df[c].tolist()] for c in df.columns}, 'meta': meta, 'bound': case['bound'], 'miss_model': case['miss_model'],
-               'alpha': case['alpha'], 'bkind': case['bkind'], 'qbound': case.get('qbound', False), 'qkind': case.get('qkind', 'none'), 'refit': case.get('refit', False)}
+               'alpha': case['alpha'], 'bkind': case['bkind'], 'adtype': case.get('adtype', 'int64'), 'qbound': case.get('qbound', False), 'qkind': case.get('qkind', 'none'), 'refit': case.get('refit', False)}
     tag = 'TMLE'
     try:
         tm = fit(case)
@@ -101,8 +124,13 @@ def check_case(ctx, fails, case, tr, small_exprs, small_refs):
     s1 = float(np.sum((a / g1t * (y - Qs))[obs]))
     s0 = float(np.sum(((1 - a) / g0t * (y - Qs))[obs]))
     scale = float(np.sum(np.abs(a / g1t)[obs]) + np.sum(np.abs((1 - a) / g0t)[obs]))
-    if abs(s1) > 1e-6 * scale or abs(s0) > 1e-6 * scale:
-        fails.append((n, 'TMLE.score-equations', 'efficient-score sums after targeting are %g and %g (scale %g), not zero' % (s1, s0, scale), payload))
+    if not getattr(tm, '_verif_converged_', True):
+        ctx.count('fluctuation model did not converge (outside the quantifier; score clause not judged)')
+    elif abs(s1) > 1e-6 * scale or abs(s0) > 1e-6 * scale:
+        key = 'TMLE.score-equations' + ('.near-positivity-violation' if meta.get('extreme') else '')
+        fails.append((n, key, 'efficient-score sums after targeting are %g and %g (scale %g), not zero%s' % (
+            s1, s0, scale, ' [fitted Pr(A|W) down to %.1e, no bound; epsilon %r]' % (float(min(np.min(g1t), np.min(g0t))), [float(x) for x in pr['epsilon']])
+            if meta.get('extreme') else ''), payload))
     # clever covariates are what the property says
     if np.max(np.abs(H1 - a / g1t)) > 1e-12 or np.max(np.abs(H0 + (1 - a) / g0t)) > 1e-12:
         fails.append((n, 'TMLE.clever-covariates', 'H1W/H0W differ from A/g1 and -(1-A)/g0', payload))
@@ -182,6 +210,8 @@ def check_case(ctx, fails, case, tr, small_exprs, small_refs):
     ctx.count('missing_model:' + str(case['miss_model']))
     ctx.count('bound:' + case['bkind'])
     ctx.count('q-bound:' + case.get('qkind', 'none'))
+    ctx.count('exposure-dtype:' + case.get('adtype', 'int64'))
+    ctx.count('positivity:' + ('near-violation, no bound' if meta.get('extreme') else 'ordinary'))
     ctx.sample({'n': n, 'outcome': meta['outcome'], 'missing': meta['missing'], 'bound': case['bound'], 'epsilon': [float(x) for x in pr['epsilon']],
                 'score_sums': [s1, s0], 'estimate': got}, cap=4)
 
@@ -231,6 +261,9 @@ def report(ctx, fails):
 def replay(ctx, payload):
     fails = []
     df = pd.DataFrame(payload['data'])
+    if payload.get('adtype', 'int64') != 'int64':
+        df['A'] = df['A'].astype(payload['adtype'])
     run_cases(ctx, fails, [{'df': df, 'meta': payload['meta'], 'bound': payload['bound'], 'bkind': payload.get('bkind', '?'),
-                            'miss_model': payload['miss_model'], 'alpha': payload['alpha'], 'qbound': payload.get('qbound', False), 'qkind': payload.get('qkind', 'none'), 'refit': payload.get('refit', False)}])
+                            'miss_model': payload['miss_model'], 'alpha': payload['alpha'], 'qbound': payload.get('qbound', False), 'qkind': payload.get('qkind', 'none'), 'refit': payload.get('refit', False),
+                            'adtype': payload.get('adtype', 'int64')}])
     report(ctx, fails)
